@@ -294,9 +294,17 @@ class Thm:
                 for v in t.get_svars():
                     if v.name in inst:
                         v.T.match_incr(inst[v.name].get_type(), inst.tyinst)
+            # Terms substituted for free variables must be closed (a loose bound
+            # variable would be captured by the binders of the sequent) and have
+            # the type of the variable they replace.
+            for t in th.hyps + (th.prop,):
+                for v in t.get_vars():
+                    if v.name in inst.var_inst:
+                        if inst.var_inst[v.name].checked_get_type() != v.T.subst(inst.tyinst):
+                            raise InvalidDerivationException("substitution")
             hyps_new = tuple(hyp.subst(inst) for hyp in th.hyps)
             prop_new = th.prop.subst(inst)
-        except (term.TermException, TypeMatchException):
+        except (term.TermException, term.TypeCheckException, TypeMatchException):
             raise InvalidDerivationException("substitution")
         return Thm(prop_new, hyps_new)
 
